@@ -142,83 +142,7 @@ func runC24(c *core.Ctx) {
 		c.Check(bad == 0, "collision-tie-break-table", f.Name()+fmt.Sprintf(" identifiers, then AS numbers (%d valuations)", rows), f.Decl.Pos(), fmt.Sprintf("%d disagreements; first: %s", bad, first))
 	}
 
-	// (3) collisionHandling structure
-	if f := c.MustFunc(srv + ".(*peer).collisionHandling"); f != nil {
-		isEst := p.Func(srv + ".isEstablishedState")
-		isOC := p.Func(srv + ".isOpenConfirmState")
-		should := p.Func(srv + ".(*peer).shouldCeaseOnCollision")
-		cease := p.Func(srv + ".(*FSM).cease")
-		fromPred := func(e ast.Expr, pred *core.Fn) bool {
-			if pred == nil {
-				return false
-			}
-			if call, ok := core.Unparen(e).(*ast.CallExpr); ok {
-				return core.Callee(f.Pkg, call) == pred.Obj
-			}
-			obj := core.ObjOf(f.Pkg, e)
-			if obj == nil {
-				return false
-			}
-			for _, d := range core.DefsOf(f, obj) {
-				if call, ok := core.Unparen(d).(*ast.CallExpr); ok && core.Callee(f.Pkg, call) == pred.Obj {
-					return true
-				}
-			}
-			return false
-		}
-		// `return true` under isEstablished
-		estLoses, ocNeeded, ceaseGuard, elseLoses := false, false, false, false
-		ast.Inspect(f.Decl.Body, func(n ast.Node) bool {
-			switch x := n.(type) {
-			case *ast.ReturnStmt:
-				if len(x.Results) == 1 {
-					if v := core.ConstOf(f.Pkg, x.Results[0]); v != nil && v.ExactString() == "true" {
-						for _, ft := range core.CtlFactsAt(f, x) {
-							if ft.Expr != nil && ft.Truth && ft.Enclosing && fromPred(ft.Expr, isEst) {
-								estLoses = true
-							}
-							if ft.Expr != nil && !ft.Truth && ft.Enclosing && fromPred(ft.Expr, should) {
-								elseLoses = true
-							}
-						}
-					}
-				}
-			case *ast.CallExpr:
-				if cease != nil && core.Callee(f.Pkg, x) == cease.Obj {
-					for _, ft := range core.CtlFactsAt(f, x) {
-						if ft.Expr != nil && ft.Truth && fromPred(ft.Expr, should) {
-							ceaseGuard = true
-						}
-						if ft.Expr != nil && ft.Truth && fromPred(ft.Expr, isOC) {
-							ocNeeded = true
-						}
-					}
-				}
-			}
-			return true
-		})
-		c.Check(estLoses, "collision-path", f.Name()+" an Established sibling makes the caller lose", f.Decl.Pos(), "collisionHandling does not return true when another FSM of the peer is Established")
-		c.Check(ocNeeded && ceaseGuard, "collision-path", f.Name()+" an OpenConfirm sibling is ceased iff the tie-break says so", f.Decl.Pos(), "the sibling's cease() is not control-dependent on `sibling in OpenConfirm` and on shouldCeaseOnCollision")
-		c.Check(elseLoses, "collision-path", f.Name()+" otherwise the caller loses", f.Decl.Pos(), "when the tie-break favours the existing OpenConfirm connection the caller is not told to cease")
-		// the state is read under stateMu
-		mu := p.Field(srv, "FSM", "stateMu")
-		g := p.CFG(f)
-		isLock := func(n ast.Node) bool {
-			return core.NodeHas(n, func(x ast.Node) bool {
-				cl, ok := x.(*ast.CallExpr)
-				if !ok {
-					return false
-				}
-				se, ok := cl.Fun.(*ast.SelectorExpr)
-				return ok && (se.Sel.Name == "RLock" || se.Sel.Name == "Lock") && core.FieldOf(f.Pkg, se.X) == mu
-			})
-		}
-		stF := p.Field(srv, "FSM", "state")
-		isRead := func(n ast.Node) bool {
-			return core.NodeHas(n, func(x ast.Node) bool { e, ok := x.(ast.Expr); return ok && core.FieldOf(f.Pkg, e) == stF })
-		}
-		c.Check(len(core.PathAvoiding(g, isLock, isRead)) == 0, "collision-path", f.Name()+" reads sibling state under stateMu", f.Decl.Pos(), "a sibling FSM's state is read without its stateMu")
-	}
+	collisionStructure(c)
 	if omr := c.MustFunc(srv + ".(*openSentState).openMsgReceived"); omr != nil {
 		ch := p.Func(srv + ".(*peer).collisionHandling")
 		ok := false
@@ -516,5 +440,87 @@ func runC24(c *core.Ctx) {
 			c.Check(len(core.PathAvoiding(g, isLock, isThis)) == 0, "collision-path", f.Name()+" appends to peer.fsms under fsmsMu", as.Pos(), "the FSM list of a peer is modified without fsmsMu: collision handling iterates it concurrently")
 			return true
 		})
+	}
+}
+
+// collisionStructure is clause (3) of C24 (shared with C21: a second connection must not take an Established session down)
+func collisionStructure(c *core.Ctx) {
+	p := c.P
+	// (3) collisionHandling structure
+	if f := c.MustFunc(srv + ".(*peer).collisionHandling"); f != nil {
+		isEst := p.Func(srv + ".isEstablishedState")
+		isOC := p.Func(srv + ".isOpenConfirmState")
+		should := p.Func(srv + ".(*peer).shouldCeaseOnCollision")
+		cease := p.Func(srv + ".(*FSM).cease")
+		fromPred := func(e ast.Expr, pred *core.Fn) bool {
+			if pred == nil {
+				return false
+			}
+			if call, ok := core.Unparen(e).(*ast.CallExpr); ok {
+				return core.Callee(f.Pkg, call) == pred.Obj
+			}
+			obj := core.ObjOf(f.Pkg, e)
+			if obj == nil {
+				return false
+			}
+			for _, d := range core.DefsOf(f, obj) {
+				if call, ok := core.Unparen(d).(*ast.CallExpr); ok && core.Callee(f.Pkg, call) == pred.Obj {
+					return true
+				}
+			}
+			return false
+		}
+		// `return true` under isEstablished
+		estLoses, ocNeeded, ceaseGuard, elseLoses := false, false, false, false
+		ast.Inspect(f.Decl.Body, func(n ast.Node) bool {
+			switch x := n.(type) {
+			case *ast.ReturnStmt:
+				if len(x.Results) == 1 {
+					if v := core.ConstOf(f.Pkg, x.Results[0]); v != nil && v.ExactString() == "true" {
+						for _, ft := range core.CtlFactsAt(f, x) {
+							if ft.Expr != nil && ft.Truth && ft.Enclosing && fromPred(ft.Expr, isEst) {
+								estLoses = true
+							}
+							if ft.Expr != nil && !ft.Truth && ft.Enclosing && fromPred(ft.Expr, should) {
+								elseLoses = true
+							}
+						}
+					}
+				}
+			case *ast.CallExpr:
+				if cease != nil && core.Callee(f.Pkg, x) == cease.Obj {
+					for _, ft := range core.CtlFactsAt(f, x) {
+						if ft.Expr != nil && ft.Truth && fromPred(ft.Expr, should) {
+							ceaseGuard = true
+						}
+						if ft.Expr != nil && ft.Truth && fromPred(ft.Expr, isOC) {
+							ocNeeded = true
+						}
+					}
+				}
+			}
+			return true
+		})
+		c.Check(estLoses, "collision-path", f.Name()+" an Established sibling makes the caller lose", f.Decl.Pos(), "collisionHandling does not return true when another FSM of the peer is Established")
+		c.Check(ocNeeded && ceaseGuard, "collision-path", f.Name()+" an OpenConfirm sibling is ceased iff the tie-break says so", f.Decl.Pos(), "the sibling's cease() is not control-dependent on `sibling in OpenConfirm` and on shouldCeaseOnCollision")
+		c.Check(elseLoses, "collision-path", f.Name()+" otherwise the caller loses", f.Decl.Pos(), "when the tie-break favours the existing OpenConfirm connection the caller is not told to cease")
+		// the state is read under stateMu
+		mu := p.Field(srv, "FSM", "stateMu")
+		g := p.CFG(f)
+		isLock := func(n ast.Node) bool {
+			return core.NodeHas(n, func(x ast.Node) bool {
+				cl, ok := x.(*ast.CallExpr)
+				if !ok {
+					return false
+				}
+				se, ok := cl.Fun.(*ast.SelectorExpr)
+				return ok && (se.Sel.Name == "RLock" || se.Sel.Name == "Lock") && core.FieldOf(f.Pkg, se.X) == mu
+			})
+		}
+		stF := p.Field(srv, "FSM", "state")
+		isRead := func(n ast.Node) bool {
+			return core.NodeHas(n, func(x ast.Node) bool { e, ok := x.(ast.Expr); return ok && core.FieldOf(f.Pkg, e) == stF })
+		}
+		c.Check(len(core.PathAvoiding(g, isLock, isRead)) == 0, "collision-path", f.Name()+" reads sibling state under stateMu", f.Decl.Pos(), "a sibling FSM's state is read without its stateMu")
 	}
 }
